@@ -6,7 +6,9 @@ import (
 	"strings"
 	"time"
 
+	"github.com/anyproto/any-sync/commonspace/object/tree/objecttree"
 	"github.com/anyproto/any-sync/commonspace/object/tree/treechangeproto"
+	"github.com/anyproto/any-sync/util/crypto"
 
 	"verifharness/internal/corr"
 )
@@ -251,6 +253,76 @@ type poolCh struct {
 	good bool
 }
 
+// genPool builds a DAG of really-signed changes over the root; `good` marks the ones the oracle
+// predicts to be authentic given authentic parents. Returns the pool and the heads of the good DAG.
+func (tc *treeCase) genPool(rootP *parsed) ([]*poolCh, []string) {
+	r, w := tc.r, tc.w
+	n := len(w.recs)
+	// pool of really-signed changes forming a DAG
+	goodEnv := map[string]*parsed{tc.rootId: rootP}
+	goodHeads := []string{tc.rootId}
+	var goodAll []string = []string{tc.rootId}
+	var pool []*poolCh
+	np := 3 + r.Intn(6)
+	for i := 0; i < np; i++ {
+		var prev []string
+		switch x := r.Intn(100); {
+		case x < 70:
+			prev = append(prev, goodHeads[r.Intn(len(goodHeads))])
+			if len(goodHeads) > 1 && r.Chance(40) {
+				o := goodHeads[r.Intn(len(goodHeads))]
+				if o != prev[0] {
+					prev = append(prev, o)
+				}
+			}
+		case x < 90:
+			prev = append(prev, goodAll[r.Intn(len(goodAll))])
+		case x < 95 && len(pool) > 0:
+			prev = append(prev, pool[r.Intn(len(pool))].raw.id)
+		default:
+			prev = append(prev, realCid([]byte(fmt.Sprint("nochange", tc.nextTs()))))
+		}
+		minIdx := 0
+		for _, pid := range prev {
+			if pp, ok := goodEnv[pid]; ok && !(pp.isRoot && pp.derived) {
+				if j := w.recIndex(pp.aclHead, n); j > minIdx {
+					minIdx = j
+				}
+			}
+		}
+		author := tc.pickAuthor()
+		snap := tc.rootId
+		raw := tc.buildChange(author, tc.pickRecord(minIdx, false), prev, snap)
+		p := tc.parseRaw(raw.id, raw.body, tc.rootId)
+		p.label = "valid"
+		pc := &poolCh{raw: raw, p: p}
+		if ok, _ := tc.authentic(p, goodEnv); ok {
+			pc.good = true
+			goodEnv[p.id] = p
+			goodAll = append(goodAll, p.id)
+			var nh []string
+			for _, hd := range goodHeads {
+				keep := true
+				for _, pid := range prev {
+					if pid == hd {
+						keep = false
+					}
+				}
+				if keep {
+					nh = append(nh, hd)
+				}
+			}
+			goodHeads = append(nh, p.id)
+			r.Count("pool.predicted-authentic")
+		} else {
+			r.Count("pool.predicted-inauthentic")
+		}
+		pool = append(pool, pc)
+	}
+
+	return pool, goodHeads
+}
+
 // runCase: one receiver, one tree, a pool of really-signed changes, batches with mutants.
 func runCase(h *harnessState, w *world, caseNo int) {
 	r := h.r
@@ -324,68 +396,7 @@ func runCase(h *harnessState, w *world, caseNo int) {
 		return
 	}
 
-	// pool of really-signed changes forming a DAG
-	rootP := tc.attached[tc.rootId]
-	goodEnv := map[string]*parsed{tc.rootId: rootP}
-	goodHeads := []string{tc.rootId}
-	var goodAll []string = []string{tc.rootId}
-	var pool []*poolCh
-	np := 3 + r.Intn(6)
-	for i := 0; i < np; i++ {
-		var prev []string
-		switch x := r.Intn(100); {
-		case x < 70:
-			prev = append(prev, goodHeads[r.Intn(len(goodHeads))])
-			if len(goodHeads) > 1 && r.Chance(40) {
-				o := goodHeads[r.Intn(len(goodHeads))]
-				if o != prev[0] {
-					prev = append(prev, o)
-				}
-			}
-		case x < 90:
-			prev = append(prev, goodAll[r.Intn(len(goodAll))])
-		case x < 95 && len(pool) > 0:
-			prev = append(prev, pool[r.Intn(len(pool))].raw.id)
-		default:
-			prev = append(prev, realCid([]byte(fmt.Sprint("nochange", tc.nextTs()))))
-		}
-		minIdx := 0
-		for _, pid := range prev {
-			if pp, ok := goodEnv[pid]; ok && !(pp.isRoot && pp.derived) {
-				if j := w.recIndex(pp.aclHead, n); j > minIdx {
-					minIdx = j
-				}
-			}
-		}
-		author := tc.pickAuthor()
-		snap := tc.rootId
-		raw := tc.buildChange(author, tc.pickRecord(minIdx, false), prev, snap)
-		p := tc.parseRaw(raw.id, raw.body, tc.rootId)
-		p.label = "valid"
-		pc := &poolCh{raw: raw, p: p}
-		if ok, _ := tc.authentic(p, goodEnv); ok {
-			pc.good = true
-			goodEnv[p.id] = p
-			goodAll = append(goodAll, p.id)
-			var nh []string
-			for _, hd := range goodHeads {
-				keep := true
-				for _, pid := range prev {
-					if pid == hd {
-						keep = false
-					}
-				}
-				if keep {
-					nh = append(nh, hd)
-				}
-			}
-			goodHeads = append(nh, p.id)
-			r.Count("pool.predicted-authentic")
-		} else {
-			r.Count("pool.predicted-inauthentic")
-		}
-		pool = append(pool, pc)
-	}
+	pool, _ := tc.genPool(tc.attached[tc.rootId])
 
 	// delivery
 	okAdds, badAdds := 0, 0
@@ -499,6 +510,91 @@ func timed(k string) func() {
 	return func() { tmr[k] += time.Since(t) }
 }
 
+// runValidateCase: a whole tree (root + changes + claimed heads) offered to ValidateRawTreeDefault.
+func runValidateCase(h *harnessState, w *world) {
+	r := h.r
+	tc := &treeCase{h: h, r: r, w: w}
+	n := len(w.recs)
+	tc.recvK = n
+	if r.Chance(30) {
+		tc.recvK = 1 + r.Intn(n)
+	}
+	tc.recvKeys = w.byName["o"].keys
+	recv, err := w.receiver(tc.recvK, tc.recvKeys)
+	if err != nil {
+		r.Fatal("receiver ACL: " + err.Error())
+	}
+	tc.recv = recv
+	tc.ask("reset")
+	if got := tc.ask(tc.aclLine()); got != "ok" {
+		r.Fatal("model rejected acl line: " + got)
+	}
+	var root *rawCh
+	switch x := r.Intn(100); {
+	case x < 20:
+		root = tc.buildRoot(nil, "", true)
+	case x < 80:
+		root = tc.buildRoot(w.byName["o"], w.recs[r.Intn(min(2, tc.recvK))].Id, false)
+	default:
+		root = tc.buildRoot(tc.pickAuthor(), tc.pickRecord(0, true), false)
+	}
+	tc.rootId = root.id
+	tc.attached = map[string]*parsed{}
+	tc.builder = objecttree.NewChangeBuilder(crypto.NewKeyStorage(), root.proto())
+	rootP := tc.parseRaw(root.id, root.body, root.id)
+	rootP.label = root.label
+	pool, goodHeads := tc.genPool(rootP)
+	tampered := false
+	if r.Chance(12) { // tampered root, after the pool was built over the genuine one
+		if len(rootP.sig) > 0 {
+			root = &rawCh{id: root.id, body: wrap(rootP.payload, flip(tc, rootP.sig)), label: "root.sig-flip/keepid"}
+			tampered = true
+		}
+	}
+	onlyGood := r.Chance(60)
+	var batch []*rawCh
+	var some *poolCh
+	for _, c := range pool {
+		if c.good || !onlyGood {
+			batch = append(batch, c.raw)
+		}
+		if c.p.decOK {
+			some = c
+		}
+	}
+	tag := "good-only"
+	if !onlyGood {
+		tag = "mixed"
+	}
+	if tampered && r.Chance(50) {
+		batch, goodHeads = nil, []string{tc.rootId} // a bare tampered root
+	}
+	if r.Chance(15) {
+		r.Rand.Shuffle(len(batch), func(a, b int) { batch[a], batch[b] = batch[b], batch[a] })
+	}
+	if r.Chance(35) && some != nil {
+		m := mutators[r.Intn(len(mutators))]
+		tc.attached[tc.rootId] = rootP // mutators pick other parents from here
+		if mut := m.make(tc, some.p, r.Chance(50)); mut != nil {
+			r.Count("mutator." + mut.label)
+			k := r.Intn(len(batch) + 1)
+			nb := append([]*rawCh{}, batch[:k]...)
+			nb = append(nb, mut)
+			batch = append(nb, batch[k:]...)
+			tag = "mutant"
+		}
+	}
+	heads := append([]string(nil), goodHeads...)
+	switch x := r.Intn(100); {
+	case x < 10 && len(pool) > 0:
+		heads = []string{pool[r.Intn(len(pool))].raw.id}
+	case x < 15:
+		heads = append(heads, tc.rootId)
+	}
+	tc.validate(root, batch, heads, tag)
+	r.Case(strings.Join(tc.ops, "\n"), len(batch) >= 2)
+}
+
 func Run(r *corr.Run) {
 	if os.Getenv("VERIF_AUTH_TIMING") != "" {
 		defer func() { fmt.Fprintln(os.Stderr, "timing:", tmr) }()
@@ -516,7 +612,11 @@ func Run(r *corr.Run) {
 	for round := 0; r.TimeLeft(); round++ {
 		for _, w := range worlds {
 			for i := 0; i < perWorld && r.TimeLeft(); i++ {
-				runCase(h, w, caseNo)
+				if caseNo%4 == 3 {
+					runValidateCase(h, w)
+				} else {
+					runCase(h, w, caseNo)
+				}
 				caseNo++
 			}
 		}
